@@ -449,12 +449,17 @@ theorem outdupGraph_valueInfo (g : GraphP) : (outdupGraph g).valueInfo = g.value
 theorem outdupGraph_inputs (g : GraphP) : (outdupGraph g).inputs = g.inputs := by
   cases g; rfl
 
+theorem desModel_outdup' (m : ModelP) (hg : wfGraph [] (mergeGraph (outdupGraph m.graph)) = true)
+    (hf : ((m.functions.map outdupFunction).map mergeFunction).all (wfFunction m.irVersion) = true) :
+    desModel (outdupModel m) = desModel m := by
+  simp only [desModel, outdupModel, desGraph_outdup [] m.graph hg,
+    desFunctions_outdup m.irVersion m.functions hf, outdupGraph_valueInfo]
+
 theorem desModel_outdup (m : ModelP) (h : wfModel (mergeModel (outdupModel m)) = true) :
     desModel (outdupModel m) = desModel m := by
   simp only [wfModel, Bool.and_eq_true, mergeModel, outdupModel] at h
   obtain ⟨⟨⟨⟨⟨⟨hg, hf⟩, _⟩, _⟩, _⟩, _⟩, _⟩ := h
-  simp only [desModel, outdupModel, desGraph_outdup [] m.graph hg,
-    desFunctions_outdup m.irVersion m.functions hf, outdupGraph_valueInfo]
+  exact desModel_outdup' m hg hf
 
 theorem desModel_canonD (m : ModelP) (h : wfModel (canonDModel m) = true) :
     desModel (canonDModel m) = desModel m := by
